@@ -2,3 +2,6 @@ import TorchJDSpec.Basic
 import TorchJDSpec.Linear
 import TorchJDSpec.Gram
 import TorchJDSpec.QP
+import TorchJDSpec.UPGrad
+import TorchJDSpec.Robust
+import TorchJDSpec.Impartial
